@@ -64,17 +64,19 @@ LSS = TypeVar("LSS", bound=model.LangStringSet)
 
 def _str_to_bool(string: str) -> bool:
     """
-    XML only allows ``false`` and ``true`` (case-sensitive) as valid values for a boolean.
+    The lexical space of ``xs:boolean`` consists of the (case-sensitive) literals ``true``, ``false``, ``1`` and ``0``;
+    surrounding XML white space is collapsed before the literal is interpreted (XML Schema Part 2, 3.2.2).
 
-    This function checks the string and raises a ValueError if the string is neither ``true`` nor ``false``.
+    This function checks the string and raises a ValueError if it is no ``xs:boolean`` literal.
 
-    :param string: String representation of a boolean. (``true`` or ``false``)
+    :param string: String representation of a boolean. (``true``, ``false``, ``1`` or ``0``)
     :return: The respective boolean value.
-    :raises ValueError: If string is neither ``true`` nor ``false``.
+    :raises ValueError: If string is no ``xs:boolean`` literal.
     """
-    if string not in ("true", "false"):
-        raise ValueError(f"{string} is not a valid boolean! Only true and false are allowed.")
-    return string == "true"
+    literal = string.strip(" \t\n\r")
+    if literal not in ("true", "false", "1", "0"):
+        raise ValueError(f"{string} is not a valid boolean! Only true, false, 1 and 0 are allowed.")
+    return literal in ("true", "1")
 
 
 def _tag_replace_namespace(tag: str, nsmap: Dict[Optional[str], str]) -> str:
